@@ -1,2 +1,3 @@
 pub mod dbg;
+pub mod editor;
 pub mod vm;
